@@ -207,11 +207,11 @@ Definition nonfinite_table_complete : bool :=
 Lemma nonfinite_table_names_the_leaves : nonfinite_table_complete = true.
 Proof. vm_compute. reflexivity. Qed.
 
-(** non-vacuity: 43 float leaves, 129 (leaf, special value) pairs, 66 of them accepted *)
+(** non-vacuity: 43 float leaves, 129 (leaf, special value) pairs, 63 of them accepted *)
 Example counts_of_leaves :
   fold_right (fun gp n => (List.length (gp_leaves gp) + n)%nat) 0%nat guard_packs = 43%nat
   /\ List.length nonfinite_table = 43%nat
-  /\ fold_right (fun e n => (List.length (snd (fst e)) + n)%nat) 0%nat nonfinite_table = 66%nat.
+  /\ fold_right (fun e n => (List.length (snd (fst e)) + n)%nat) 0%nat nonfinite_table = 63%nat.
 Proof. vm_compute. repeat split. Qed.
 
 (* the two alternatives exclude each other *)
